@@ -1,4 +1,371 @@
-//! C13 — stub, not built yet.
+//! C13 — tags never change what a value does.
+//!
+//! Correspondence: `C13 <word> <operands bottom-first>`: the same request once with untagged and once
+//! with tagged copies of the operands, for the modelled words (arith.rs, collection words, type
+//! predicates, the five tag words).
+//! Oracle A (modelled words, typed operands): tagged run vs untagged run agree on success/failure (same
+//! error variant) and the result stacks are `==` (the language's equality, which ignores tags).
+//! Oracle B (every dictionary word, `word_list()` at run time, arity 0..3, every argument position):
+//! the same relation, excluding the tag words, the printing/formatting words, non-deterministic /
+//! external words and immediate (compile-time) words.
+//! Oracle C: the tag words behave as a map attached to the value (tags_map_laws on the implementation).
+use super::c12::{gen_tagged, gen_value, index_set, run_src, same};
+use super::gen::*;
+use crate::canon;
+use crate::rng::Rng;
 use crate::Ctx;
+use xeh::prelude::*;
 
-pub fn run(_ctx: &mut Ctx) {}
+const TAG_WORDS: &[&str] = &["tags", "with-tags", "insert-tag", "remove-tag", "get-tag"];
+const PRINT_WORDS: &[&str] = &["print", "println", ".s", "concat", "join", "str>number", "newline", "emit"];
+const EXTERNAL_WORDS: &[&str] = &["random", "random-bits", "read-all", "write-all", "exec-piped", "include", "require", "exit", "dump", "dump-at", "see"];
+
+fn vec_cell(items: &[Cell]) -> Cell {
+    let mut v = Xvec::new();
+    for x in items {
+        v.push_back_mut(x.clone());
+    }
+    Cell::Vector(v)
+}
+
+/// recursive untagging (reference for comparing results that `==` cannot compare: NaN, host objects)
+fn strip(c: &Cell) -> Cell {
+    match c.value() {
+        Cell::Vector(v) => vec_cell(&v.iter().map(strip).collect::<Vec<_>>()),
+        Cell::Map(m) => {
+            let mut out = Xmap::new();
+            for (k, v) in m.iter() {
+                out.insert_mut(strip(k), strip(v));
+            }
+            Cell::Map(out)
+        }
+        v => v.clone(),
+    }
+}
+
+fn equalish(a: &Cell, b: &Cell) -> bool {
+    a == b || canon::cell(&strip(a)) == canon::cell(&strip(b))
+}
+
+/// tag `c` and, down to `depth`, some of the cells inside it
+fn tag_deep(r: &mut Rng, c: &Cell, depth: u32) -> Cell {
+    let inner = if depth == 0 {
+        c.value().clone()
+    } else {
+        match c.value() {
+            Cell::Vector(v) => vec_cell(&v.iter().map(|x| if r.chance(60) { tag_deep(r, x, depth - 1) } else { x.clone() }).collect::<Vec<_>>()),
+            Cell::Map(m) => {
+                let mut out = Xmap::new();
+                for (k, v) in m.iter() {
+                    let k2 = if r.chance(40) { tag_deep(r, k, 0) } else { k.clone() };
+                    let v2 = if r.chance(60) { tag_deep(r, v, depth - 1) } else { v.clone() };
+                    out.insert_mut(k2, v2);
+                }
+                Cell::Map(out)
+            }
+            v => v.clone(),
+        }
+    };
+    gen_tagged(r, inner, 1)
+}
+
+fn err_kind(out: &str) -> String {
+    out.split(|c| c == ' ' || c == ':').take(2).collect::<Vec<_>>().join(":")
+}
+
+/// the metamorphic relation on two canonical outcomes + stacks
+fn agree(a: &(String, Option<Vec<Cell>>), b: &(String, Option<Vec<Cell>>)) -> bool {
+    match (&a.1, &b.1) {
+        (Some(x), Some(y)) => x.len() == y.len() && x.iter().zip(y.iter()).all(|(p, q)| equalish(p, q)),
+        (None, None) => err_kind(&a.0) == err_kind(&b.0),
+        _ => false,
+    }
+}
+
+/// arithmetic words: NaN payloads are not modelled (same canonicalisation as C09)
+const ARITH: &[&str] = &["+", "-", "*", "/", "rem", "min", "max", "<", "<=", ">", ">=", "==", "<>", "band", "bor", "bxor", "bsl", "bsr", "and", "or", "xor",
+    "neg", "abs", "bnot", "popcnt", "round", ">int", ">real", "zero?", "positive?", "negative?", "not"];
+
+fn run_quiet(base: &Xstate, word: &str, args: &[Cell]) -> (String, Option<Vec<Cell>>) {
+    if !ARITH.contains(&word) {
+        return run_src(base, word, args);
+    }
+    let mut xs = base.clone();
+    let r = crate::guarded(|| {
+        for a in args {
+            xs.push_data(a.clone()).unwrap();
+        }
+        let res = xs.eval(word);
+        (res, canon::stack(&xs))
+    });
+    match r {
+        None => ("panic".into(), None),
+        Some((Ok(()), st)) => {
+            let st: Vec<Cell> = st.iter().map(canon::canon_nan).collect();
+            (canon::ok_stack(&st), Some(st))
+        }
+        Some((Err(e), _)) => {
+            let e = match e {
+                Xerr::TypeErrorMsg { val, msg } => Xerr::TypeErrorMsg { val: canon::canon_nan(&val), msg },
+                e => e,
+            };
+            (format!("err {}", canon::err(&e)), None)
+        }
+    }
+}
+
+// ---------------------------------------------------------------------------------------------
+// operand pools
+
+fn small_map(r: &mut Rng, strk: bool) -> Cell {
+    let mut m = Xmap::new();
+    for i in 0..r.below(4) {
+        let k = if strk { Cell::from(["a", "b", "k", "#fmt"][i % 4]) } else { Cell::Int(i as i128) };
+        m.insert_mut(k, gen_value(r, 1));
+    }
+    Cell::Map(m)
+}
+
+/// one operand of the class `t`
+fn operand(r: &mut Rng, t: char) -> Cell {
+    match t {
+        'i' => Cell::Int(if r.chance(75) { r.range(-3, 9) as i128 } else { gen_int(r) }),
+        'u' => Cell::Int(r.range(0, 4) as i128),
+        'r' => Cell::Real(gen_real(r)),
+        'n' => if r.bool() { Cell::Int(gen_int(r)) } else { Cell::Real(gen_real(r)) },
+        'f' => Cell::Flag(r.bool()),
+        's' => Cell::from(gen_str(r)),
+        'b' => Cell::Bitstr(bitstr_from_bits(&gen_bits(r, 70))),
+        'v' => vec_cell(&(0..r.below(5)).map(|_| gen_value(r, 1)).collect::<Vec<_>>()),
+        'V' => vec_cell(&(0..r.below(6)).map(|_| Cell::Int(r.range(-5, 5) as i128)).collect::<Vec<_>>()),
+        'm' => { let strk = r.bool(); small_map(r, strk) }
+        'w' => Cell::Int(*r.pick(&[8i128, 16, 32, 64])),
+        'B' => Cell::Bitstr(Xbitstr::from(gen_str(r).into_bytes())),
+        'k' => if r.bool() { Cell::Int(r.range(0, 4) as i128) } else { Cell::from(*r.pick(&["a", "b", "k", "zz"])) },
+        _ => gen_value(r, 2),
+    }
+}
+
+/// operand tuples that give the words of the dictionary a chance to succeed (bottom first); `?` = anything
+const SHAPES: &[&str] = &[
+    "", "i", "u", "r", "f", "s", "b", "v", "V", "m", "x", "w", "B", "rw", "iw", "uw", "Bw", "BB", "bB",
+    "ii", "rr", "ff", "bb", "bu", "vu", "vi", "su", "mk", "xv", "xx", "iu", "bi", "ub", "sb", "bs", "ss", "vs", "xi", "ui",
+    "vii", "sii", "mxk", "xxu", "iuu", "buu", "bbb", "iii", "xxx", "ibu", "iub", "uub", "rub", "rbu",
+];
+
+fn shaped_operands(r: &mut Rng, arity: usize) -> Vec<Cell> {
+    if r.chance(70) {
+        let cands: Vec<&&str> = SHAPES.iter().filter(|s| s.len() == arity).collect();
+        if !cands.is_empty() {
+            let sh = **r.pick(&cands);
+            return sh.chars().map(|t| strip(&operand(r, t))).collect();
+        }
+    }
+    (0..arity).map(|_| any_operand(r)).collect()
+}
+
+fn any_operand(r: &mut Rng) -> Cell {
+    let t = *r.pick(&['i', 'u', 'r', 'f', 's', 'b', 'v', 'V', 'm', 'x', 'x', 'k']);
+    // untagged base value: the tagged copy is derived from it
+    strip(&operand(r, t))
+}
+
+/// typed signatures of the modelled words (bottom first)
+const SIGS: &[(&str, &str)] = &[
+    ("+", "nn"), ("-", "nn"), ("*", "nn"), ("/", "nn"), ("rem", "nn"), ("min", "nn"), ("max", "nn"),
+    ("<", "nn"), ("<=", "nn"), (">", "nn"), (">=", "nn"), ("==", "nn"), ("<>", "nn"),
+    ("band", "ii"), ("bor", "ii"), ("bxor", "ii"), ("bsl", "iu"), ("bsr", "iu"), ("and", "ff"), ("or", "ff"), ("xor", "ff"),
+    ("neg", "n"), ("abs", "n"), ("bnot", "i"), ("popcnt", "i"), ("round", "r"), (">int", "n"), (">real", "n"),
+    ("zero?", "n"), ("positive?", "n"), ("negative?", "n"), ("not", "f"),
+    ("insert", "mxk"), ("remove", "mk"), ("get", "mk"), ("get", "vu"), ("length", "v"), ("length", "s"), ("length", "b"),
+    ("nth", "vi"), ("slice", "vii"), ("slice", "sii"), ("sort", "V"), ("reverse", "v"), ("push", "xv"), ("collect", "xxu"), ("unbox", "v"),
+    ("nil?", "x"), ("bool?", "x"), ("int?", "x"), ("real?", "x"), ("str?", "x"), ("bitstr?", "x"), ("vec?", "x"),
+];
+
+fn same_class(a: &Cell, b: &Cell) -> bool {
+    matches!((a.value(), b.value()), (Cell::Int(_), Cell::Int(_)) | (Cell::Str(_), Cell::Str(_)))
+}
+
+fn emit_pair(ctx: &mut Ctx, base: &Xstate, word: &str, plain: &[Cell], tagged: &[Cell], corr: bool, what: &str) {
+    let a = run_quiet(base, word, plain);
+    let b = run_quiet(base, word, tagged);
+    if corr {
+        ctx.case(format!("C13 {} {}", word, canon::stack_str(plain)).trim_end().to_string(), a.0.clone());
+        ctx.case(format!("C13 {} {}", word, canon::stack_str(tagged)).trim_end().to_string(), b.0.clone());
+    }
+    ctx.tag(&format!("outcome:{}", if a.1.is_some() { "ok".to_string() } else { err_kind(&a.0) }));
+    let ok = agree(&a, &b);
+    ctx.check(ok, || format!("C13 {} {} | tagged: {} ({})", word, canon::stack_str(plain), canon::stack_str(tagged), what), || a.0.clone(), || b.0.clone());
+}
+
+fn modelled(ctx: &mut Ctx, base: &Xstate) {
+    let (word, sig) = *ctx.rng.pick(SIGS);
+    let r = &mut ctx.rng;
+    let mut plain: Vec<Cell> = sig.chars().map(|t| strip(&operand(r, t))).collect();
+    // map probes: mostly keys of the map's own class (inside the C12 guard)
+    if matches!(word, "insert" | "remove" | "get") && sig.starts_with('m') {
+        if let Cell::Map(m) = &plain[0] {
+            if let Some((k0, _)) = m.iter().next() {
+                let last = plain.len() - 1;
+                if !same_class(k0, &plain[last]) && r.chance(85) {
+                    plain[last] = match k0.value() { Cell::Int(_) => Cell::Int(r.range(0, 4) as i128), _ => Cell::from(*r.pick(&["a", "b", "k", "zz"])) };
+                }
+            }
+        }
+    }
+    if word == "collect" {
+        let n = plain.len() - 1;
+        plain[n] = Cell::Int(r.range(0, 3) as i128);
+    }
+    if matches!(word, "nth" | "slice") && r.chance(50) {
+        let idx = index_set(3, r);
+        let n = plain.len() - 1;
+        plain[n] = Cell::Int(*r.pick(&idx));
+    }
+    ctx.tag(&format!("word:{}", word));
+    // every single position tagged, then all positions tagged
+    let n = plain.len();
+    for pos in 0..=n {
+        let r = &mut ctx.rng;
+        let tagged: Vec<Cell> = plain.iter().enumerate().map(|(i, c)| if pos == n || i == pos { tag_deep(r, c, 2) } else { c.clone() }).collect();
+        emit_pair(ctx, base, word, &plain, &tagged, true, if pos == n { "all tagged" } else { "one position tagged" });
+    }
+}
+
+// ---------------------------------------------------------------------------------------------
+// oracle C: the tag words as a map attached to the value
+
+fn tag_laws(ctx: &mut Ctx, base: &Xstate) {
+    let r = &mut ctx.rng;
+    let v0 = gen_value(r, 2);
+    // start from a value that may already be tagged (string keys: inside the guard)
+    let key = Cell::from(*r.pick(&["k", "a", "#fmt", "new", "é"]));
+    let x = gen_value(r, 2);
+    let stepc = |ctx: &mut Ctx, w: &str, args: &[Cell]| -> (String, Option<Vec<Cell>>) {
+        let o = run_quiet(base, w, args);
+        ctx.tag(&format!("word:{}", w));
+        ctx.case(format!("C13 {} {}", w, canon::stack_str(args)).trim_end().to_string(), o.0.clone());
+        o
+    };
+    let top = |o: &(String, Option<Vec<Cell>>)| -> Option<Cell> { o.1.as_ref().and_then(|s| if s.len() == 1 { Some(s[0].clone()) } else { None }) };
+    // insert-tag then get-tag returns the inserted value; the value itself is unchanged
+    let ins = stepc(ctx, "insert-tag", &[v0.clone(), x.clone(), key.clone()]);
+    if let Some(v1) = top(&ins) {
+        let g = stepc(ctx, "get-tag", &[v1.clone(), key.clone()]);
+        let exp = canon::ok_stack(&[x.clone()]);
+        ctx.check(g.0 == exp, || format!("C13 get-tag(insert-tag {} {} {})", canon::cell(&v0), canon::cell(&x), canon::cell(&key)), || exp.clone(), || g.0.clone());
+        ctx.check(canon::cell(v1.value()) == canon::cell(v0.value()) && equalish(&v1, &v0), || format!("C13 value(insert-tag {})", canon::cell(&v0)), || canon::cell(v0.value()), || canon::cell(v1.value()));
+        // the other tags are kept
+        if let Some(t0) = v0.tags() {
+            for (k, val) in t0.iter() {
+                if !same(k, &key) {
+                    let g = run_quiet(base, "get-tag", &[v1.clone(), k.clone()]);
+                    let exp = canon::ok_stack(&[val.clone()]);
+                    ctx.check(g.0 == exp, || format!("C13 get-tag other key {} after insert-tag on {}", canon::cell(k), canon::cell(&v0)), || exp.clone(), || g.0.clone());
+                }
+            }
+        }
+        // remove-tag removes exactly that key
+        let rem = stepc(ctx, "remove-tag", &[v1.clone(), key.clone()]);
+        if let Some(v2) = top(&rem) {
+            let g = stepc(ctx, "get-tag", &[v2.clone(), key.clone()]);
+            ctx.check(g.0 == "ok N", || format!("C13 get-tag(remove-tag {} {})", canon::cell(&v1), canon::cell(&key)), || "ok N".into(), || g.0.clone());
+            ctx.check(canon::cell(v2.value()) == canon::cell(v0.value()), || format!("C13 value(remove-tag {})", canon::cell(&v1)), || canon::cell(v0.value()), || canon::cell(v2.value()));
+        } else {
+            ctx.oracle_fail(format!("C13 remove-tag {} {}", canon::cell(&v1), canon::cell(&key)), "a value".into(), rem.0.clone());
+        }
+        // tags returns the attached map; with-tags attaches exactly the given map
+        let tg = stepc(ctx, "tags", &[v1.clone()]);
+        if let Some(tm) = top(&tg) {
+            let w = stepc(ctx, "with-tags", &[v0.value().clone(), tm.clone()]);
+            if let Some(v3) = top(&w) {
+                ctx.check(canon::cell(&v3) == canon::cell(&v1), || format!("C13 with-tags(value, tags {})", canon::cell(&v1)), || canon::cell(&v1), || canon::cell(&v3));
+            }
+        }
+    } else {
+        ctx.oracle_fail(format!("C13 insert-tag {} {} {}", canon::cell(&v0), canon::cell(&x), canon::cell(&key)), "a value".into(), ins.0.clone());
+    }
+    // an untagged value has no tags
+    let plain = v0.value().clone();
+    let t = stepc(ctx, "tags", &[plain.clone()]);
+    ctx.check(t.0 == "ok N", || format!("C13 tags {}", canon::cell(&plain)), || "ok N".into(), || t.0.clone());
+    let g = stepc(ctx, "get-tag", &[plain.clone(), key.clone()]);
+    ctx.check(g.0 == "ok N", || format!("C13 get-tag {} {}", canon::cell(&plain), canon::cell(&key)), || "ok N".into(), || g.0.clone());
+    // malformed: with-tags with a non-map, missing operands
+    let junk = gen_value(&mut ctx.rng, 1);
+    stepc(ctx, "with-tags", &[plain.clone(), junk]);
+    let w = *ctx.rng.pick(TAG_WORDS);
+    stepc(ctx, w, &[plain]);
+}
+
+// ---------------------------------------------------------------------------------------------
+// oracle B: every dictionary word
+
+fn dictionary(ctx: &mut Ctx, base: &Xstate, per_word: usize) {
+    let words: Vec<String> = base.word_list().iter().map(|w| w.to_string()).collect();
+    let dict = base.verif_dict();
+    let mut skipped: Vec<String> = Vec::new();
+    let mut tested = 0usize;
+    let trace = std::env::var("C13_TRACE").is_ok();
+    let mut seen = std::collections::BTreeSet::new();
+    let mut ok_words = std::collections::BTreeSet::new();
+    for w in words.iter().rev() {
+        // the most recent definition of a name is the one `eval` resolves
+        if !seen.insert(w.clone()) { continue; }
+        let entry = dict.iter().rev().find(|e| &e.0 == w);
+        let immediate = entry.map(|e| e.2).unwrap_or(false);
+        let kind = entry.map(|e| e.1).unwrap_or("?");
+        let excluded = TAG_WORDS.contains(&w.as_str()) || PRINT_WORDS.contains(&w.as_str()) || EXTERNAL_WORDS.contains(&w.as_str()) || immediate
+            || w.chars().any(|c| c.is_whitespace()) || w.is_empty();
+        if excluded {
+            skipped.push(w.clone());
+            continue;
+        }
+        tested += 1;
+        ctx.tag(&format!("dict:kind:{}", kind));
+        let arities: &[usize] = if kind == "native" || kind == "interp" { &[0, 1, 2, 3] } else { &[0, 1] };
+        for &arity in arities {
+            let reps = if arity == 0 { 1 } else { per_word * arity };
+            for _ in 0..reps {
+                let plain: Vec<Cell> = shaped_operands(&mut ctx.rng, arity);
+                // words outside the modelled tables may take a size / width operand: `1 <huge> int!` aborts the
+                // process on allocation (reported defect, C08/C14); keep integers small for them
+                let plain: Vec<Cell> = if ARITH.contains(&w.as_str()) || SIGS.iter().any(|(n, _)| n == w) { plain } else {
+                    plain.into_iter().map(|c| match c { Cell::Int(i) if i.unsigned_abs() > 4096 => Cell::Int(i % 4097), c => c }).collect()
+                };
+                if trace { eprintln!("C13 dict {} {}", w, canon::stack_str(&plain)); }
+                let a = run_quiet(base, w, &plain);
+                ctx.tag(if a.1.is_some() { "dict:outcome:ok" } else { "dict:outcome:err" });
+                if a.1.is_some() { ok_words.insert(w.clone()); }
+                // positions: each single one, then all
+                let variants = if arity <= 1 { arity } else { arity + 1 };
+                if arity == 0 { ctx.oracle_ok(); }
+                for pos in 0..variants {
+                    let r = &mut ctx.rng;
+                    let tagged: Vec<Cell> = plain.iter().enumerate().map(|(i, c)| if pos == arity || i == pos { tag_deep(r, c, 2) } else { c.clone() }).collect();
+                    let b = run_quiet(base, w, &tagged);
+                    ctx.tag(&format!("dict:arity:{}", arity));
+                    let ok = agree(&a, &b);
+                    ctx.check(ok, || format!("C13 dict {} {} | tagged: {}", w, canon::stack_str(&plain), canon::stack_str(&tagged)), || a.0.clone(), || b.0.clone());
+                }
+            }
+        }
+    }
+    let never: Vec<String> = seen.iter().filter(|w| !ok_words.contains(*w) && !skipped.contains(*w)).cloned().collect();
+    ctx.note(format!("dictionary words that never succeeded on the generated operands (relation checked on failures only): {}", never.join(" ")));
+    skipped.sort();
+    ctx.note(format!("dictionary words tested: {}; excluded (tag / printing / external / immediate): {}", tested, skipped.join(" ")));
+}
+
+pub fn run(ctx: &mut Ctx) {
+    let mut base = Xstate::boot().unwrap();
+    base.intercept_stdout(true);
+    // a binary input so that the reading words (u8, i16le, float, bytes, magic …) have something to read
+    let bytes: Vec<u8> = (0..64).map(|_| ctx.rng.next_u64() as u8).collect();
+    base.set_binary_input(Xbitstr::from(bytes)).unwrap();
+    let per_word = if ctx.thorough { 60 } else { 8 };
+    dictionary(ctx, &base, per_word);
+    for i in 0..ctx.n {
+        if i % 5 == 4 { tag_laws(ctx, &base) } else { modelled(ctx, &base) }
+    }
+}
